@@ -17,6 +17,11 @@ sys.path.insert(0, os.path.dirname(HERE))
 import vmon  # noqa: E402,F401  (switches the reach recorder on before the library is imported, when asked for)
 
 
+import re  # noqa: E402
+
+GRAMMAR_SYMBOL = re.compile(r"^[a-zA-ZÅΑ-ω]+$")
+
+
 def main():
     spec = json.loads(sys.argv[1])
     out = {"violations": [], "counts": {}, "samples": [], "fatal": None}
@@ -322,7 +327,16 @@ def run(spec, out):
             pfx = rng.choice(sorted((p for p in Prefix._by_symbol.values() if p.symbol and p.symbol.isalpha()), key=lambda p: p.symbol))
             text = pfx.symbol + base.symbols[0]
             if text not in Unit._by_symbol and text not in Unit._by_name:
-                how = rng.choice(["resolve_symbol", "Unit.parse", "Quantity.parse"])
+                how = rng.choice(["resolve_symbol", "Unit.parse", "Quantity.parse", "failing parse"])
+                if how == "failing parse":
+                    # the text was resolved inside a parse that then failed on a later term (or on its syntax)
+                    for bad in (f"3 {text}/zzqqnotaunit", f"{text} zzqqnotaunit^2", f"{text}*m^", f"2 {text}/"):
+                        try:
+                            (measured.Quantity.parse if bad[0].isdigit() else Unit.parse)(bad)
+                        except Exception:
+                            pass
+                    count("symbols_resolved_before_declaration/failing parse")
+                    return text, "symbol-resolved-earlier"
                 try:
                     got = (Unit.resolve_symbol(text) if how == "resolve_symbol" else Unit.parse(text) if how == "Unit.parse"
                            else measured.Quantity.parse("2 " + text).unit)
@@ -386,7 +400,7 @@ def run(spec, out):
                     return f"resolve_symbol({symbol!r}) gives {got!r}"
                 if symbol not in u.symbols:
                     return f"unit does not report symbol {symbol!r}"
-                if symbol.isalpha():
+                if GRAMMAR_SYMBOL.match(symbol):
                     # the lookups users actually make: the parser
                     try:
                         got = (Unit.parse(symbol), measured.Quantity.parse("3 " + symbol).unit)
@@ -397,6 +411,10 @@ def run(spec, out):
             return None
         return check
 
+    import unicodedata
+    lookalikes = [x for x in ("\u2126", "\u212b", "A\u030a", "\u00b5m", "\u2126\u2126") if x not in Unit._by_symbol
+                  and unicodedata.normalize("NFC", x) != x or unicodedata.normalize("NFKC", x) != x]
+    rng.shuffle(lookalikes)
     steps = spec.get("steps", 60)
     for step in range(steps):
         r = rng.random()
@@ -404,6 +422,10 @@ def run(spec, out):
         if r < 0.12:
             n = fresh("zqn")
             s, state = symbol_for_declaration()
+            if lookalikes and rng.random() < 0.25:
+                # a spelling that is only *canonically equivalent* (Unicode) to a symbol somebody else owns: a different
+                # string, so a valid declaration - and the owner keeps its symbol
+                s, state = lookalikes.pop(), "canonically-equivalent-to-a-taken-symbol"
             u = expect_ok("Unit.define", state, lambda: Unit.define(d, n, s), lambda u: unit_bound(u, n, s)(u) if u is not None else "no unit")
             if u is not None:
                 my_units.append(u)
@@ -487,7 +509,7 @@ def run(spec, out):
                                "alias-dupname", "alias-dupsym", "alias-space", "scale-dupname", "scale-space", "scale-badzero", "dimderive-dupname",
                                "prefix-dupname", "prefix-dupsym", "equals-self", "equals-zero", "define-badsymboltype", "dimdefine-dupname",
                                "prefix-dupname-identity", "ownname-derive-dupsym", "ownname-derive-space", "ownname-alias-dupsym", "ownname-alias-space",
-                               "symbolonly-alias-dupsym", "symbolonly-alias-space", "dimctor-dupname", "prefix-rename", "prefix-resymbol"])
+                               "symbolonly-alias-dupsym", "symbolonly-alias-space", "dimctor-dupname", "prefix-rename", "prefix-resymbol", "scale-foreign-zero"])
             dup_n, dup_s = rng.choice(unit_names), rng.choice(unit_symbols)
             target = rng.choice(my_units) if my_units else None
             anon = None
@@ -560,6 +582,24 @@ def run(spec, out):
                     if anon_first:
                         Prefix(13, e)
                     expect_fail("Prefix(name=...)", "duplicate symbol", "anonymous-first" if anon_first else "fresh", lambda: Prefix(13, e, name=fresh("zqp"), symbol=taken))
+            elif kind == "scale-foreign-zero":
+                # whether a zero point measured in another dimension is refused or not, a refusal must leave nothing behind
+                other_d = rng.choice([x for x in dims if x is not d])
+                zero_unit = next((u for u in my_units if u.dimension is other_d), None) or Unit._by_name.get({measured.Length: "meter", measured.Time: "second", measured.Mass: "gram"}.get(other_d, "meter"))
+                if zero_unit is not None and zero_unit.dimension is not d:
+                    nn, ss = fresh("zqsc"), fresh("zqSC")
+                    before = snapshot()
+                    try:
+                        d.scale(rng.choice([255.372, 1, 32]) * zero_unit, nn, ss)
+                        count("definition_calls_succeeded")
+                        count("successful_calls/Dimension.scale/zero-point-of-another-dimension")
+                    except Exception as e:
+                        count("failing_calls/Dimension.scale/zero point of another dimension/fresh")
+                        count("definition_calls_raised")
+                        changed = diff(before, snapshot())
+                        if changed:
+                            violation("C19:failed-call-changed-registry:Dimension.scale:zero", f"Dimension.scale with a zero point of another dimension raised {type(e).__name__} but changed {changed}",
+                                      {"label": "Dimension.scale", "argpos": "zero"})
             elif kind in ("prefix-rename", "prefix-resymbol"):
                 # a prefix has one name and one symbol: declaring an already named prefix under another one is refused
                 named = sorted((p for p in Prefix._known.values() if getattr(p, "name", None) and getattr(p, "symbol", None) and p.base), key=lambda p: p.name)
